@@ -8,8 +8,6 @@ import (
 	"strings"
 	"time"
 
-	"github.com/google/mtail/internal/runtime/compiler/ast"
-	"github.com/google/mtail/internal/runtime/compiler/parser"
 )
 
 // C04 — accepted programs never fault inside the VM.
@@ -63,62 +61,6 @@ func parseFlags(flags string) (year bool, loc *time.Location) {
 
 var vmCaseCounter int
 
-// c04KnownShape recognises, syntactically, the call sites of the recorded findings: a pattern
-// constant used as a value (operand of a comparison or of arithmetic other than the concatenating
-// `+', or index key).  Anything else that faults keeps its own class and is reported.
-type c04ShapeFinder struct{ found string }
-
-func (f *c04ShapeFinder) isPatternConst(n ast.Node) bool {
-	// the checker may have wrapped the identifier in a pattern expression or a conversion
-	for i := 0; i < 4; i++ {
-		if pe, ok := n.(*ast.PatternExpr); ok {
-			n = pe.Expr
-		} else if ce, ok := n.(*ast.ConvExpr); ok {
-			n = ce.N
-		}
-	}
-	id, ok := n.(*ast.IDTerm)
-	if !ok || id.Symbol == nil {
-		return false
-	}
-	_, ok = id.Symbol.Binding.(*ast.PatternFragment)
-	return ok
-}
-
-func (f *c04ShapeFinder) VisitBefore(n ast.Node) (ast.Visitor, ast.Node) {
-	switch v := n.(type) {
-	case *ast.BinaryExpr:
-		switch v.Op {
-		case parser.PLUS, parser.MATCH, parser.NOT_MATCH, parser.AND, parser.OR:
-		default:
-			if f.isPatternConst(v.LHS) || f.isPatternConst(v.RHS) {
-				f.found = "pattern-constant-as-value"
-			}
-		}
-	case *ast.IndexedExpr:
-		if el, ok := v.Index.(*ast.ExprList); ok {
-			for _, c := range el.Children {
-				if f.isPatternConst(c) {
-					f.found = "pattern-constant-as-value"
-				}
-			}
-		}
-	}
-	return f, n
-}
-
-func (f *c04ShapeFinder) VisitAfter(n ast.Node) ast.Node { return n }
-
-func c04KnownShape(src string) string {
-	root, err := checkedAST(src)
-	if err != nil || root == nil {
-		return ""
-	}
-	f := &c04ShapeFinder{}
-	ast.Walk(f, root)
-	return f.found
-}
-
 func c04Run(r *runCtx, id string, f []string) {
 	src := unhx(f[2])
 	lines := unhxs(f[3])
@@ -161,9 +103,6 @@ func c04Run(r *runCtx, id string, f []string) {
 				why = ff[3]
 			}
 			cls := "verifier-reject:" + why
-			if k := c04KnownShape(src); k != "" {
-				cls = k
-			}
 			r.fail(id, cls, "the bytecode verifier rejects the compiler's output for this accepted program at pc %s (%s); program: %q", ff[2], why, src)
 			r.stat("verifier_rejects")
 			failed = true
@@ -188,9 +127,6 @@ func c04Run(r *runCtx, id string, f []string) {
 				first := raw
 				if j := strings.Index(raw, "\n"); j >= 0 {
 					first = raw[:j]
-				}
-				if k := c04KnownShape(src); k != "" {
-					fc = k
 				}
 				r.fail(id, fc, "line %q makes the accepted program fault inside the VM: %s; program: %q", l, first, src)
 				failed = true
@@ -237,8 +173,12 @@ func init() {
 			for _, c := range vmGenCases(g, n, ex) {
 				g.emit(c.fields()...)
 			}
-			// programs that once faulted (repaired): non-string first arguments of strptime
+			// programs that once faulted (repaired): non-string first arguments of strptime; a pattern
+			// constant among values (now refused by the compiler)
 			for _, p := range []string{
+				"counter c\nconst FOO /x/\nFOO == (1 < 2) {\n  c++\n}\n",
+				"counter c by k\nconst FOO /x/\n/x/ {\n  c[FOO]++\n}\n",
+				"counter c\nconst FOO /x/\n/(\\d+)/ {\n  $1 > FOO {\n    c++\n  }\n}\n",
 				"counter c\n/(\\d+)/ {\n  strptime(len($1), \"2006\")\n  c++\n}\n",
 				"counter c\n/(\\d+\\.\\d+)/ {\n  strptime($1 * 2.0, \"2006\")\n  c++\n}\n",
 				"counter c\ngauge g\n/(\\d+)/ {\n  g = $1\n  strptime(g, \"2006\")\n  c++\n}\n",
